@@ -103,6 +103,7 @@ impl<const V: u32> Driver<V> {
         kind: u64,
     ) -> usize {
         let mut sem_code = sem_code;
+        assert!(size >= HDR_BYTES + 8 * nf && size % 8 == 0, "driver bug: object of {} bytes with {} fields", size, nf);
         if sem_code == 0 && size >= self.max_non_los {
             sem_code = 2;
         }
